@@ -20,7 +20,7 @@ var zzPow255 = new(big.Int).Lsh(big.NewInt(1), 255)
 func ZZ_C12_Expiry() {
 	o := keeper.ZZStateOpts{MaxPool: 1, MaxBatches: 1, MaxPerBatch: 1, ConcreteIds: true, Chains: []types.ChainID{"ethereum"}}
 	if vrt.Thorough() {
-		o = keeper.ZZStateOpts{MaxPool: 2, MaxBatches: 1, MaxPerBatch: 1, SymDecimals: true}
+		o = keeper.ZZStateOpts{MaxPool: 2, MaxBatches: 1, MaxPerBatch: 1, ConcreteIds: true, DecChoice: true}
 	}
 	st := keeper.ZZBuildState(o)
 	keeper.ZZOrigins(st)
@@ -71,7 +71,7 @@ func ZZ_C12_Expiry() {
 func ZZ_C13_Cleanup() {
 	o := keeper.ZZStateOpts{MaxPool: 0, MaxBatches: 2, MaxPerBatch: 1, ZeroFees: true, ConcreteIds: true}
 	if vrt.Thorough() {
-		o = keeper.ZZStateOpts{MaxPool: 1, MaxBatches: 3, MaxPerBatch: 2, ZeroFees: true}
+		o = keeper.ZZStateOpts{MaxPool: 1, MaxBatches: 3, MaxPerBatch: 1, ZeroFees: true, ConcreteIds: true}
 	}
 	st := keeper.ZZBuildState(o)
 	env := st.Env()
